@@ -209,6 +209,49 @@ def run_case(case):
         if m >= 2 and not large:
             bump('fronts_with_several_members')
             res['nontrivial'].append(h(bdesc, 'front'))
+    # ---- the same BeliefBase object after one of its rules was replaced in place
+    if not large and n >= 2 and rng.random() < 0.3:
+        bb = mkbb()
+        try:
+            PreOCF.init_random_min_c_rep(bb).save_impacts()
+            c_inference_pareto_front(bb)
+        except Exception:
+            pass
+        for _ in range(20):
+            j = rng.randrange(n)
+            newc = gen.rand_base(rng, nat=len(sig), ncond=1, depth=rng.choice([0, 1]), p_const=0.0)[1][0]
+            conds2 = list(conds)
+            conds2[j] = newc
+            if newc != conds[j] and gen.classify(sig, conds2)[0] == 'strong':
+                break
+        else:
+            conds2 = None
+        if conds2 is not None:
+            bump('in_place_edits')
+            nc = impl.mk_cond(*newc)
+            nc.index = j + 1
+            bb.conditionals[j + 1] = nc
+            cs2 = cref.CSys(rm.Base(sig, conds2))
+            try:
+                o2 = PreOCF.init_random_min_c_rep(bb)
+                imp2 = tuple(o2.save_impacts())
+                res['evals'] += 1
+                if not cs2.is_crep(imp2):
+                    stale = impacts is not None and list(imp2) == list(impacts)
+                    viol('impacts-not-a-c-representation-after-in-place-edit%s' % (':equals-impacts-for-old-content' if stale else ''),
+                         impacts=list(imp2), base_after=base_desc(sig, conds2))
+                elif not cs2.pareto_minimal(imp2)[0]:
+                    viol('impacts-not-pareto-minimal-after-in-place-edit', impacts=list(imp2), base_after=base_desc(sig, conds2))
+                f2 = c_inference_pareto_front(bb)
+                for x in {tuple(v) for v in f2}:
+                    if not cs2.is_crep(x):
+                        viol('front-member-not-a-c-representation-after-in-place-edit', vector=list(x),
+                             base_after=base_desc(sig, conds2))
+                        break
+            except Exception as e:
+                if type(e).__name__ == 'SoftTimeout':
+                    raise
+                viol('raised-after-in-place-edit:%s' % type(e).__name__, error=str(e)[:200], base_after=base_desc(sig, conds2))
     res['sample'] = {'base': bdesc, 'impacts': impacts, 'reference_front_in_box': [list(x) for x in ref_front],
                      'front': None if front is None else [list(x) for x in front], 'optimizer_checks': st['n']}
     return res
